@@ -761,13 +761,7 @@ func (rig *c34Rig) respOracle(c c34Case, method string, obs *c34Observed, cres s
 			o.Fail("resp-body-on-bodyless", f[4])
 		}
 		if f[5] != "eof" {
-			if status != 204 && c.rp.cl > 0 && (method != "HEAD" || c.rp.trmode == "d") {
-				// known finding: a bodyless response (304, or HEAD with declared trailers) that carries a
-				// Content-Length (allowed, RFC 9110 8.6) reads as "body shorter than content-length"
-				o.Fail("bodyless-response-content-length-read-error", fmt.Sprintf("status %d to %s with Content-Length %d: client body read ends in %s", status, method, c.rp.cl, f[5]))
-			} else {
-				o.Fail("resp-bodyless-read-error", cres)
-			}
+			o.Fail("resp-bodyless-read-error", fmt.Sprintf("status %d to %s (Content-Length %d): client body read ends in %s", status, method, c.rp.cl, f[5]))
 		}
 		return
 	}
